@@ -4,10 +4,14 @@ namespace Rare.C16
 
 /-! ### the builder appends rendered members -/
 
-theorem writeInferred_eq (j : JB) (k v : Bytes) :
-    j.writeInferred k v =
-      ⟨j.sb ++ (if 0 < j.keyCount then [0x2c, 0x20] else []) ++ renderMember (k, v), j.keyCount + 1⟩ := by
-  unfold JB.writeInferred renderMember valueText
+/-- `w` writes one member whose value is rendered by `R` -/
+def Writes (R : ValR) (w : JB → Bytes → Bytes → JB) : Prop :=
+  ∀ (j : JB) (k v : Bytes), w j k v =
+    ⟨j.sb ++ (if 0 < j.keyCount then [0x2c, 0x20] else []) ++ renderMember R (k, v), j.keyCount + 1⟩
+
+theorem writeInferred_eq : Writes inferredR JB.writeInferred := by
+  intro j k v
+  unfold JB.writeInferred renderMember inferredR valueText
   by_cases hn : isNumeric v = true
   · by_cases hk : 0 < j.keyCount <;> simp [hn, hk, JB.writeLiteral, JB.writeKey]
   · by_cases ht : equalFoldLen v litTrue = true
@@ -16,34 +20,76 @@ theorem writeInferred_eq (j : JB) (k v : Bytes) :
       · by_cases hk : 0 < j.keyCount <;> simp [hn, ht, hf, hk, JB.writeLiteral, JB.writeKey]
       · by_cases hk : 0 < j.keyCount <;> simp [hn, ht, hf, hk, JB.writeString, JB.writeKey]
 
-def writeAll (j : JB) (ms : List (Bytes × Bytes)) : JB :=
-  ms.foldl (fun j m => j.writeInferred m.1 m.2) j
+theorem writeString_eq : Writes stringR JB.writeString := by
+  intro j k v
+  by_cases hk : 0 < j.keyCount <;> simp [hk, JB.writeString, JB.writeKey, renderMember, stringR]
 
-theorem writeAll_pos : ∀ (ms : List (Bytes × Bytes)) (j : JB), 0 < j.keyCount →
-    writeAll j ms = ⟨j.sb ++ renderTail ms, j.keyCount + ms.length⟩ := by
+def writeAllW (w : JB → Bytes → Bytes → JB) (j : JB) (ms : List (Bytes × Bytes)) : JB :=
+  ms.foldl (fun j m => w j m.1 m.2) j
+
+abbrev writeAll := writeAllW JB.writeInferred
+
+theorem writeAllW_pos {R : ValR} {w : JB → Bytes → Bytes → JB} (hw : Writes R w) :
+    ∀ (ms : List (Bytes × Bytes)) (j : JB), 0 < j.keyCount →
+    writeAllW w j ms = ⟨j.sb ++ renderTail R ms, j.keyCount + ms.length⟩ := by
   intro ms
   induction ms with
-  | nil => intro j _; simp [writeAll, renderTail]
+  | nil => intro j _; simp [writeAllW, renderTail]
   | cons m ms ih =>
     intro j hk
-    have := ih (j.writeInferred m.1 m.2) (by rw [writeInferred_eq]; simp)
-    simp only [writeAll, List.foldl_cons] at this ⊢
-    rw [this, writeInferred_eq, renderTail_cons]
+    have := ih (w j m.1 m.2) (by rw [hw]; simp)
+    simp only [writeAllW, List.foldl_cons] at this ⊢
+    rw [this, hw, renderTail_cons]
     simp [hk]; omega
 
-theorem writeAll_opened (ms : List (Bytes × Bytes)) :
-    (writeAll JB.opened ms).close.sb = objText ms := by
+theorem writeAllW_opened {R : ValR} {w : JB → Bytes → Bytes → JB} (hw : Writes R w)
+    (ms : List (Bytes × Bytes)) : (writeAllW w JB.opened ms).close.sb = objText R ms := by
   cases ms with
-  | nil => simp [writeAll, JB.opened, JB.close, objText, renderList]
+  | nil => simp [writeAllW, JB.opened, JB.close, objText, renderList]
   | cons m ms =>
-    have := writeAll_pos ms (JB.opened.writeInferred m.1 m.2) (by rw [writeInferred_eq]; simp)
-    simp only [writeAll, List.foldl_cons] at this ⊢
-    rw [this, writeInferred_eq]
+    have := writeAllW_pos hw ms (w JB.opened m.1 m.2) (by rw [hw]; simp)
+    simp only [writeAllW, List.foldl_cons] at this ⊢
+    rw [this, hw]
     simp [JB.opened, JB.close, objText, renderList]
 
+theorem writeAll_opened (ms : List (Bytes × Bytes)) :
+    (writeAll JB.opened ms).close.sb = objText inferredR ms := writeAllW_opened writeInferred_eq ms
+
+theorem writeAllW_append (w : JB → Bytes → Bytes → JB) (j : JB) (a b : List (Bytes × Bytes)) :
+    writeAllW w (writeAllW w j a) b = writeAllW w j (a ++ b) := by
+  simp [writeAllW, List.foldl_append]
+
 theorem writeAll_append (j : JB) (a b : List (Bytes × Bytes)) :
-    writeAll (writeAll j a) b = writeAll j (a ++ b) := by
-  simp [writeAll, List.foldl_append]
+    writeAll (writeAll j a) b = writeAll j (a ++ b) := writeAllW_append _ j a b
+
+/-! ### buildSpecialKeyJson -/
+
+def indexedMembers : Nat → List Bytes → List (Bytes × Bytes)
+  | _, [] => []
+  | i, v :: r => (natAscii i, v) :: indexedMembers (i + 1) r
+
+theorem writeIndexed_eq : ∀ (texts : List Bytes) (i : Nat) (j : JB),
+    writeIndexed j i texts = writeAllW JB.writeString j (indexedMembers i texts) := by
+  intro texts
+  induction texts with
+  | nil => intro i j; simp [writeIndexed, indexedMembers, writeAllW]
+  | cons v r ih => intro i j; simp [writeIndexed, indexedMembers, writeAllW, ih]
+
+def specialMembers (texts : List Bytes) (order : List (Bytes × Bytes)) : List (Bytes × Bytes) :=
+  indexedMembers 0 texts ++ (sortNames (order.map (·.1))).map fun k => (k, mapGet [] order k)
+
+theorem special_text (texts : List Bytes) (order : List (Bytes × Bytes)) :
+    buildSpecialKeyJson texts order = objText stringR (specialMembers texts order) := by
+  have h : ∀ (ks : List Bytes) (j : JB),
+      ks.foldl (fun (jb : JB) k => jb.writeString k (mapGet [] order k)) j
+        = writeAllW JB.writeString j (ks.map fun k => (k, mapGet [] order k)) := by
+    intro ks
+    induction ks with
+    | nil => intro j; simp [writeAllW]
+    | cons k ks ih => intro j; simp [writeAllW, ih]
+  unfold buildSpecialKeyJson specialMembers
+  simp only [writeIndexed_eq, h, writeAllW_append]
+  exact writeAllW_opened writeString_eq _
 
 /-! ### GetMatch and the loops -/
 
@@ -78,7 +124,7 @@ theorem named_loop (order : List (Bytes × Int)) (indices : List Int) (line : By
       j' = writeAll j (names.map fun n => (n, capture indices line (mapGet 0 order n))) := by
   intro names
   induction names with
-  | nil => intro j j' h; simp [pure, Except.pure] at h; simp [writeAll, h]
+  | nil => intro j j' h; simp [pure, Except.pure] at h; simp [writeAllW, h]
   | cons n names ih =>
     intro j j' h
     rw [List.foldlM_cons] at h
@@ -89,7 +135,7 @@ theorem named_loop (order : List (Bytes × Int)) (indices : List Int) (line : By
       simp only [namedStep, hg, bind, Except.bind, pure, Except.pure] at h
       have := ih _ _ h
       rw [this, hv]
-      simp [writeAll]
+      simp [writeAllW]
 
 def numberedOf (indices : List Int) (line : Bytes) (is : List Nat) : List (Bytes × Bytes) :=
   is.filterMap fun i =>
@@ -102,7 +148,7 @@ theorem numbered_loop (indices : List Int) (line : Bytes) :
       j' = writeAll j (numberedOf indices line is) := by
   intro is
   induction is with
-  | nil => intro j j' h; simp [pure, Except.pure] at h; simp [writeAll, numberedOf, h]
+  | nil => intro j j' h; simp [pure, Except.pure] at h; simp [writeAllW, numberedOf, h]
   | cons i is ih =>
     intro j j' h
     rw [List.foldlM_cons] at h
@@ -118,13 +164,13 @@ theorem numbered_loop (indices : List Int) (line : Bytes) :
         simp [he, numberedOf, this]
       · have hc : capture indices line (i : Nat) ≠ [] := by rw [← hv]; exact he
         simp only [ne_eq, he, not_false_eq_true, if_true]
-        simp [numberedOf, hc, writeAll, hv]
+        simp [numberedOf, hc, writeAllW, hv]
 
 /-- The text `json` returns, when it returns, is the object text of the sorted named captures
 followed by the non-empty numbered captures. -/
 theorem json_ok_text (named numbered : Bool) (order : List (Bytes × Int)) (indices : List Int)
     (line out : Bytes) (h : json named numbered order indices line = .ok out) :
-    out = objText ((if named then namedMembers order indices line else []) ++
+    out = objText inferredR ((if named then namedMembers order indices line else []) ++
                    (if numbered then expectedNumbered indices line else [])) := by
   unfold json at h
   simp only [bind, Except.bind, pure, Except.pure] at h
@@ -169,5 +215,69 @@ theorem json_ok_text (named numbered : Bool) (order : List (Bytes × Int)) (indi
       simp only [Bool.false_eq_true, if_false] at h ⊢
       cases h
       exact writeAll_opened []
+
+/-! ### no panic on index slices that fit the line -/
+
+theorem getMatch_total (indices : List Int) (line : Bytes) (hf : FitsLine indices line) (i : Int) :
+    ∃ v, getMatch indices line i = .ok v := by
+  unfold getMatch
+  have e2 : i * 2 = 2 * i := by omega
+  simp only [e2]
+  by_cases h1 : 2 * i < 0 ∨ 2 * i + 1 ≥ (indices.length : Int)
+  · rw [if_pos h1]; exact ⟨_, rfl⟩
+  · rw [if_neg h1]
+    have hk := hf i.toNat (by omega)
+    have ea : (2 * i).toNat = 2 * i.toNat := by omega
+    have eb : (2 * i + 1).toNat = 2 * i.toNat + 1 := by omega
+    rw [ea, eb]
+    by_cases h2 : indices.getD (2 * i.toNat) 0 < 0 ∨ indices.getD (2 * i.toNat + 1) 0 < 0
+    · simp only [if_pos h2]; exact ⟨_, rfl⟩
+    · simp only [if_neg h2]
+      rcases hk with hk | hk
+      · exact absurd hk h2
+      · have : ¬ (indices.getD (2 * i.toNat + 1) 0 > (line.length : Int) ∨
+            indices.getD (2 * i.toNat) 0 > indices.getD (2 * i.toNat + 1) 0) := by omega
+        rw [if_neg this]; exact ⟨_, rfl⟩
+
+theorem foldlM_total {α : Type} (f : JB → α → Except String JB) (hf : ∀ j a, ∃ j', f j a = .ok j') :
+    ∀ (l : List α) (j : JB), ∃ j', l.foldlM f j = .ok j' := by
+  intro l
+  induction l with
+  | nil => intro j; exact ⟨j, rfl⟩
+  | cons a l ih =>
+    intro j
+    obtain ⟨j1, h1⟩ := hf j a
+    obtain ⟨j2, h2⟩ := ih j1
+    exact ⟨j2, by rw [List.foldlM_cons, h1]; exact h2⟩
+
+theorem json_total (named numbered : Bool) (order : List (Bytes × Int)) (indices : List Int) (line : Bytes)
+    (hf : FitsLine indices line) : ∃ out, json named numbered order indices line = .ok out := by
+  have hn : ∀ j a, ∃ j', namedStep order indices line j a = .ok j' := by
+    intro j a
+    obtain ⟨v, hv⟩ := getMatch_total indices line hf (mapGet 0 order a)
+    exact ⟨j.writeInferred a v, by simp [namedStep, hv, bind, Except.bind, pure, Except.pure]⟩
+  have hu : ∀ j a, ∃ j', numberedStep indices line j a = .ok j' := by
+    intro j a
+    obtain ⟨v, hv⟩ := getMatch_total indices line hf (a : Nat)
+    exact ⟨if v ≠ [] then j.writeInferred (natAscii a) v else j,
+      by simp only [numberedStep, hv, bind, Except.bind, pure, Except.pure]⟩
+  unfold json
+  simp only [bind, Except.bind, pure, Except.pure]
+  cases named with
+  | true =>
+    obtain ⟨j1, h1⟩ := foldlM_total _ hn (sortNames (order.map (·.1))) JB.opened
+    simp only [if_true, h1]
+    cases numbered with
+    | true =>
+      obtain ⟨j2, h2⟩ := foldlM_total _ hu (List.range (indices.length / 2)) j1
+      simp only [if_true, h2]; exact ⟨_, rfl⟩
+    | false => simp only [Bool.false_eq_true, if_false]; exact ⟨_, rfl⟩
+  | false =>
+    simp only [Bool.false_eq_true, if_false]
+    cases numbered with
+    | true =>
+      obtain ⟨j2, h2⟩ := foldlM_total _ hu (List.range (indices.length / 2)) JB.opened
+      simp only [if_true, h2]; exact ⟨_, rfl⟩
+    | false => simp only [Bool.false_eq_true, if_false]; exact ⟨_, rfl⟩
 
 end Rare.C16
